@@ -133,6 +133,26 @@ def written_items(d):
     return items
 
 
+def joined_of(tok, src):
+    """is tok a single-space join of source comments (a source comment may itself contain # or blanks)"""
+    keys = [c for c in src if c]
+    seen = set()
+
+    def go(i):
+        if i == len(tok):
+            return True
+        if i in seen:
+            return False
+        seen.add(i)
+        for c in keys:
+            if tok.startswith(c, i):
+                j = i + len(c)
+                if j == len(tok) or (tok[j] == " " and go(j + 1)):
+                    return True
+        return False
+    return go(0)
+
+
 def run(ctx):
     import mappyfile
     from mappyfile.pprint import PrettyPrinter
@@ -180,8 +200,7 @@ def run(ctx):
         for tok in source_comments(out):
             if tok in src:
                 continue
-            parts = re.findall(r"#[^#]*|/\*.*?\*/", tok)
-            if not parts or any(p.strip() not in src for p in parts):
+            if not joined_of(tok, src):
                 ctx.violation("comment-text-altered", "the output contains the comment %r which is not a source comment" % tok, {"text": text, "printed": out})
                 break
         # (2) same content with and without comments
